@@ -150,7 +150,7 @@ func runC20(c *Ctx) error {
 		ids = append(ids, a)
 	}
 	base := goroutines()
-	cycles := c.Pick(2, 8)
+	cycles := c.Pick(3, 9)
 	for cy := 0; cy < cycles; cy++ {
 		portA, portB := freePort(), freePort()
 		universe := []string{"", "verse", "ünï"}[c.Rng.IntN(3)]
@@ -158,12 +158,21 @@ func runC20(c *Ctx) error {
 		if universe != "" && c.Rng.IntN(2) == 0 {
 			secret = "s3cret"
 		}
-		shortForm := cy%2 == 0 // both spellings of a listen URL in every run
+		shortForm := cy%3 == 0 // all spellings of a listen URL in every run: port only, IPv4 literal, IPv6 literal
+		host := "127.0.0.1"
+		if cy%3 == 2 {
+			if l6, err := net.Listen("tcp", "[::1]:0"); err == nil {
+				_ = l6.Close()
+				host = "[::1]"
+			} else {
+				c.Note("IPv6 loopback is not available here: the IPv6 literal spelling was skipped")
+			}
+		}
 		listen := func(p int) string {
 			if shortForm {
 				return fmt.Sprintf("tcp:%d", p)
 			}
-			return fmt.Sprintf("tcp://127.0.0.1:%d", p)
+			return fmt.Sprintf("tcp://%s:%d", host, p)
 		}
 		mkStore := func(id *m.Address, port int, connect []string, k int) config.Store {
 			st := config.Store{
@@ -180,9 +189,9 @@ func runC20(c *Ctx) error {
 			}
 			return st
 		}
-		label := fmt.Sprintf("cycle=%d/short=%v/universe=%q/secret=%v", cy, shortForm, universe, secret != "")
+		label := fmt.Sprintf("cycle=%d/short=%v/host=%s/universe=%q/secret=%v", cy, shortForm, host, universe, secret != "")
 		stA := mkStore(ids[0], portA, nil, 0)
-		stB := mkStore(ids[1], portB, []string{fmt.Sprintf("tcp://127.0.0.1:%d", portA)}, 1)
+		stB := mkStore(ids[1], portB, []string{fmt.Sprintf("tcp://%s:%d", host, portA)}, 1)
 		cfgA, err := stA.Parse()
 		if err != nil {
 			c.Violate("a valid relay-only configuration does not parse: "+err.Error(), "config-parse", map[string]any{"cfg": label})
@@ -271,7 +280,7 @@ func runC20(c *Ctx) error {
 			c.Violate(fmt.Sprintf("goroutines accumulate over start/stop cycles: %d before the first cycle, %d while running, %d after stopping", base, running, after), "goroutine-leak", map[string]any{"cfg": label, "baseline": base, "after": after})
 		}
 		for _, p := range []int{portA, portB} {
-			l, err := net.Listen("tcp", fmt.Sprintf("127.0.0.1:%d", p))
+			l, err := net.Listen("tcp", fmt.Sprintf("%s:%d", host, p))
 			if err != nil {
 				c.Violate("a listen port is still bound after the router stopped", "port-still-bound", map[string]any{"cfg": label, "port": p})
 			} else {
